@@ -1,0 +1,39 @@
+//go:build verif
+
+package state
+
+import (
+	"net/netip"
+	"time"
+)
+
+// VerifAdvanceTime simulates the passage of d for the session bookkeeping:
+// the last activity of every session moves d into the past. Nothing is removed
+// here; that is what VerifHousekeeping (the cleaner tick) does.
+// Verification hook: only compiled with the "verif" build tag.
+func (state *State) VerifAdvanceTime(d time.Duration) {
+	state.sessionsLock.Lock()
+	defer state.sessionsLock.Unlock()
+
+	for _, s := range state.sessions {
+		s.lock.Lock()
+		s.lastActivity = s.lastActivity.Add(-d)
+		s.lock.Unlock()
+	}
+}
+
+// VerifHousekeeping runs one tick of the session cleaner.
+// Verification hook: only compiled with the "verif" build tag.
+func (state *State) VerifHousekeeping() {
+	state.cleanSessions()
+}
+
+// VerifHasSession reports whether a session object for the router exists,
+// without creating one and without marking it as used.
+// Verification hook: only compiled with the "verif" build tag.
+func (state *State) VerifHasSession(ip netip.Addr) bool {
+	state.sessionsLock.Lock()
+	defer state.sessionsLock.Unlock()
+
+	return state.sessions[ip] != nil
+}
